@@ -590,12 +590,14 @@ pub fn dom_order_keys(doc: &str) -> Outcome {
 // ------------------------------------------------------------------------------------------------
 // C13: a tree mutator that FAILS must leave serialization and document-order keys unchanged
 
-pub const TREE_SCENARIOS: [&str; 6] = [
+pub const TREE_SCENARIOS: [&str; 8] = [
     "append_ancestor",        // b.append_child(a) where a is b's parent           -> HierarchyRequestErr
     "insert_before_ancestor", // a.insert_before(r, b) where r is an ancestor of a -> HierarchyRequestErr
     "append_self",            // a.append_child(a)
     "doc_second_element",     // doc.append_child(a): a document has one element   -> HierarchyRequestErr
     "insert_before_self",     // r.insert_before(b, b)
+    "attr_append_element",    // x.append_child(a): an attribute holds text and references only -> HierarchyRequestErr
+    "attr_append_comment",    // x.append_child(<!--k-->)
     "append_ok",              // control: r.append_child(a) succeeds (no expectation beyond "no panic")
 ];
 
@@ -614,10 +616,12 @@ pub fn dom_tree_atomic(scenario: &str) -> Outcome {
     }
     let mut before = String::new();
     let observed = guard(|| {
-        let (_, doc) = xml_dom::XmlDocument::from_raw("<r><a><b/></a><c/></r>").unwrap();
+        let (_, doc) = xml_dom::XmlDocument::from_raw("<r x='v'><a><b/></a><c/><!--k--></r>").unwrap();
         let r = doc.document_element().unwrap();
         let a = r.child_nodes().item(0).unwrap();
         let b = a.child_nodes().item(0).unwrap();
+        let k = r.child_nodes().item(2).unwrap();
+        let x = xml_dom::Element::get_attribute_node(&r, "x").unwrap();
         before = snapshot(&doc);
         let res = match scenario {
             "append_ancestor" => b.as_element().unwrap().append_child(a.clone()).map(|_| ()),
@@ -625,6 +629,8 @@ pub fn dom_tree_atomic(scenario: &str) -> Outcome {
             "append_self" => a.as_element().unwrap().append_child(a.clone()).map(|_| ()),
             "doc_second_element" => doc.append_child(a.clone()).map(|_| ()),
             "insert_before_self" => a.as_element().unwrap().insert_before(b.clone(), Some(&b)).map(|_| ()),
+            "attr_append_element" => x.append_child(a.clone()).map(|_| ()),
+            "attr_append_comment" => x.append_child(k.clone()).map(|_| ()),
             _ => r.append_child(a.clone()).map(|_| ()),
         };
         match res {
